@@ -1,7 +1,7 @@
 """Runs one scenario: mock CA(s) + generated configuration + the real daemon; returns the raw trace."""
 import json, os, shutil, hashlib
 from common import fresh_dir, read_trace, ToolError, WORK
-from daemon import World, standard_hooks, rec_hook
+from daemon import World, standard_hooks, rec_hook, toml_dumps
 from mockca import MockCA, TraceWriter
 import vcrypto
 
@@ -88,7 +88,7 @@ class Scenario:
             g = "accounts_directory = %r\ncertificates_directory = %r\n" % (self.world.accounts, self.world.certs)
             open(self.world.conf, "w").write(cfg.replace("@GLOBAL_DIRS@", g.replace("'", '"')).replace("@ROOT@", self.world.root))
         else:
-            self.world.write_config(cfg)
+            self.world.write_config(self.rewritten(cfg))
         for name, text in (self.extra_files or {}).items():
             open(os.path.join(self.world.root, name), "w").write(text.replace("@ROOT@", self.world.root))
         e = dict(self.env)
@@ -98,6 +98,36 @@ class Scenario:
         r = self.world.run(max_attempts=attempts or self.attempts, timeout=self.timeout, env=e, root_certs=root_certs, umask=umask)
         self.tw.emit({"src": "drv", "ev": "DaemonEnd", "rc": r["rc"], "hung": r["hung"]})
         return r
+
+    def rewritten(self, cfg):
+        """Configuration "dialects": the same configuration written another, equivalent way (chosen by the scenario's tag) - every list
+        section in a file of its own pulled in by a glob, or each certificate's hook list wrapped in a group.  Scenarios that mutate the
+        configuration themselves, include files or produce raw text are left as they are."""
+        import zlib, copy
+        if self.cfg_mutator or self.include or self.extra_files or os.environ.get("VERIF_NO_DIALECT") or "include" in cfg:
+            return cfg
+        k = zlib.crc32(("cfg" + self.tag).encode()) % 4
+        cfg = copy.deepcopy(cfg)
+        if k == 1:
+            d = os.path.join(self.world.root, "conf.d")
+            os.makedirs(d, exist_ok=True)
+            for f in os.listdir(d):
+                os.unlink(os.path.join(d, f))
+            n = 0
+            for sec in [s for s, v in cfg.items() if isinstance(v, list) and v and isinstance(v[0], dict)]:
+                for table in cfg.pop(sec):
+                    open(os.path.join(d, "%03d-%s.toml" % (n, sec)), "w").write(toml_dumps({sec: [table]}))
+                    n += 1
+            cfg["include"] = ["conf.d/*.toml"]
+        elif k == 2:
+            groups = list(cfg.get("group") or [])
+            for i, c in enumerate(cfg.get("certificate") or []):
+                if len(c.get("hooks") or []) >= 2:
+                    groups.append({"name": "all-hooks-of-%d" % i, "hooks": list(c["hooks"])})
+                    c["hooks"] = ["all-hooks-of-%d" % i]
+            if groups:
+                cfg["group"] = groups
+        return cfg
 
     def events(self):
         return read_trace(self.world.trace)
